@@ -56,13 +56,20 @@ InitBank == [k \in (Users \X {NatD}) |-> StartFunds]
 
 Init ==
   /\ w = LET w0 == InitWorld(Cfg, "admin", T0, InitBank)
-         IN IF StartHalted THEN w0 ELSE [w0 EXCEPT !.c.stopped = FALSE]
+             w1 == IF StartHalted THEN w0 ELSE [w0 EXCEPT !.c.stopped = FALSE]
+         \* with "tspend" the treasury CONTRACT is deployed at the treasury address: protocol fees paid by the
+         \* staking contract land in its balance and its admin spends them (both contracts in one model)
+         IN IF "tspend" \in Extras
+            THEN [w1 EXCEPT !.t = [inst |-> TRUE, admin |-> "admin", pending |-> OwnNone, minTime |-> OwnNoTime,
+                                   trader |-> "trader", routes |-> << >>]]
+            ELSE w1
   /\ sid = 0
   /\ par = 0
   /\ (EmitTests => /\ TLCSet(1, 0)
                     /\ PrintT("MODEL " \o ToJson([users |-> Users, fee |-> FeeRate, treasury |-> TreasuryAddr,
                                oracle |-> OracleAddr, minStake |-> MinStake, batchPeriod |-> BatchPeriod,
-                               unbonding |-> Unbonding, halted |-> StartHalted, funds |-> StartFunds, samePrefix |-> SamePrefix])))
+                               unbonding |-> Unbonding, halted |-> StartHalted, funds |-> StartFunds, samePrefix |-> SamePrefix,
+                               treasuryContract |-> "tspend" \in Extras])))
 
 ---------------------------------------------------------------------------
 \* ------------------------------------------------------------------ the call alphabet
@@ -175,6 +182,9 @@ Stray_       == "stray" \in Extras /\ \E k \in {"ok", "err", "timeout"} :
 Toggle       == "toggle" \in Extras /\
                   Do([m |-> "update_config", s |-> w.c.admin,
                       up |-> [feecfg |-> [fee |-> w.c.cfg.fee, treasury |-> IF w.c.cfg.treasury = "" THEN "treasury" ELSE "", valid |-> TRUE]]])
+\* the treasury contract's admin (and others, refused) spend the fees the staking contract paid in
+TSpend       == "tspend" \in Extras /\ \E u \in Principals, a \in {1, Bal(w.bank, TreasuryAcct, NatD) + 1} :
+                  Do([m |-> "t_spend", s |-> u, den |-> NatD, amt |-> a, receiver |-> "u1", channel |-> "", rosmo |-> TRUE, rcel |-> FALSE])
 \* the admin moves the contract to another IBC channel; sequence numbers are per channel, so the next
 \* transfer is numbered by the new channel's counter (here: it starts again at 1)
 Rechannel    == "rechannel" \in Extras /\ w.c.cfg.channel = Channel /\
@@ -212,7 +222,7 @@ Resume       == AdminOps /\ w.c.stopped /\ \E u \in Principals, k \in ResumeScal
 Tick         == \E t \in TimePoints : Do(TimeCall(t))
 
 Next == Stake \/ StakeVariants \/ Unstake \/ Submit \/ Withdraw_ \/ Rewards \/ ReturnBatch \/ WrongSender \/ Direct \/ TopUp
-        \/ Relay \/ Stray_ \/ Recover_ \/ Forced \/ FeeWithdraw_ \/ Breaker \/ Resume \/ Matrix \/ Toggle \/ Rechannel \/ NewCounter \/ Tick
+        \/ Relay \/ Stray_ \/ Recover_ \/ Forced \/ FeeWithdraw_ \/ Breaker \/ Resume \/ Matrix \/ Toggle \/ TSpend \/ Rechannel \/ NewCounter \/ Tick
 
 Spec == Init /\ [][Next]_vars
 
